@@ -207,11 +207,8 @@ impl<'a> GeneratorState<'a> {
                         self.carry_flag_ok = false;
                         Ok(ExprType::Y)
                     }
-                    ExprType::Y => {
-                        self.flags = FlagsState::Y;
-                        self.carry_flag_ok = false;
-                        Ok(ExprType::Y)
-                    }
+                    // Nothing is emitted for 'Y = Y': the flags don't start to describe Y
+                    ExprType::Y => Ok(ExprType::Y),
                     ExprType::Nothing => Err(self
                         .compiler_state
                         .syntax_error("Can't assign void to variable", pos)),
